@@ -34,4 +34,4 @@ How to build and test (the sandbox has no network):
   cd {wt} && export GOFLAGS=-mod=mod GOPROXY=off GOSUMDB=off GOTOOLCHAIN=local
   go build ./... && go test -vet=off -count=1 ./...        # the full suite takes about 1-2 minutes; it must print ok
   (to run only your demo: copy demo_test.go into {wt}, run `go test -vet=off -count=1 -run TestSeeded{pid}M<i> .`, then remove it again)
-Verify yourself, for each change: (a) with the change, full suite passes; (b) with the change, the demo fails; (c) without the change (git stash / git checkout), the demo passes. Iterate until all three hold; if the suite catches your change, pick a subtler one. When done, leave the worktree clean (`git checkout -- . && git clean -fd` inside {wt}) — the deliverables live only in {outd}. Finish with a short report of what you produced.""")
+Verify yourself, for each change: (a) with the change, full suite passes; (b) with the change, the demo fails; (c) without the change (`git apply -R` your patch or `git checkout -- .`; do NOT use `git stash`: the stash is shared with other worktrees of the same repository), the demo passes. Iterate until all three hold; if the suite catches your change, pick a subtler one. When done, leave the worktree clean (`git checkout -- . && git clean -fd` inside {wt}) — the deliverables live only in {outd}. Finish with a short report of what you produced.""")
